@@ -16,6 +16,7 @@ import ast
 
 from .. import analysis
 from ..astutil import calls_in, call_name, where
+from ..logic import entails, reach_avoiding
 from ..model import AnalysisError, ClassInfo, unparse, walk_no_nested
 from .rules_tree import (tree_events, path_facts, TreeState, norm_text, is_child_list_expr, CHILD_FIELDS, infeasible)
 
@@ -121,38 +122,48 @@ def simulate(an, f, path, in_smartlist):
     return st
 
 
-def smartlist_detach_guard_ok(f):
-    """SmartList.__setitem__: the branch that detaches `value` from its previous parent must be skipped only
-    when value has no parent.  Under invariant I `value in value._parent` follows from `value._parent`, so a test
-    `value._parent and value in value._parent` (plus hasattr) is equivalent to `value._parent`."""
-    for n in walk_no_nested(f.node):
-        if isinstance(n, ast.If) and any(isinstance(c.func, ast.Attribute) and c.func.attr == "remove" for c in calls_in(n)
-                                         if isinstance(c, ast.Call)):
-            atoms = []
+def smartlist_detach_guard_ok(an, f):
+    """SmartList.__setitem__: the statement that detaches `value` from its previous parent may be skipped only when value has no
+    parent. Path form: every path to the primitive replacement that avoids the detaching call crosses a branch edge that forces
+    not (hasattr(value, '_parent') and value._parent and value in value._parent); under invariant I the membership test follows
+    from the pointer, so this is `value has no parent`."""
+    g = an.s.cfg(f)
+    ax = an.alias_expander(f)
+    val = f.params[2] if len(f.params) > 2 else "value"
+    dets, adds = [], []
+    for n in g.nodes:
+        for r in n.expr_roots():
+            for c in calls_in(r):
+                if isinstance(c.func, ast.Attribute) and c.func.attr == "remove" and c.args and norm_text(ax.expand(c.args[0], n)) == val \
+                        and norm_text(ax.expand(c.func.value, n)) == "%s._parent" % val:
+                    dets.append(n)
+                if isinstance(c.func, ast.Attribute) and c.func.attr == "__setitem__" and isinstance(c.func.value, ast.Call) \
+                        and call_name(c.func.value) == "super":
+                    adds.append(n)
+    if not dets or not adds:
+        return False, "no detaching call / no primitive replacement"
+    det_ids = set(n.id for n in dets)
 
-            def flat(t):
-                if isinstance(t, ast.BoolOp) and isinstance(t.op, ast.And):
-                    for v in t.values:
-                        flat(v)
-                else:
-                    atoms.append(t)
-            flat(n.test)
-            val = f.params[2] if len(f.params) > 2 else "value"
-            ok_atoms = 0
-            has_ptr = False
-            for a in atoms:
-                t = norm_text(a)
-                if t == "hasattr(%s, '_parent')" % val:
-                    ok_atoms += 1
-                elif t in ("%s._parent" % val, "%s._parent is not None" % val):
-                    ok_atoms += 1
-                    has_ptr = True
-                elif t == "%s in %s._parent" % (val, val):
-                    ok_atoms += 1     # implied by invariant I
-                else:
-                    return False, unparse(n.test)
-            return has_ptr and ok_atoms == len(atoms), unparse(n.test)
-    return False, "no detaching branch"
+    def classify(leaf, br):
+        t = norm_text(ax.expand(leaf, br))
+        if t == "hasattr(%s, '_parent')" % val:
+            return "H"
+        if t == "%s._parent" % val:
+            return "P"
+        if t == "%s._parent is None" % val:
+            return "PN"
+        if t == "%s in %s._parent" % (val, val):
+            return "I"
+        return None
+
+    def edge_ok(src, kind, dst):
+        if dst.id in det_ids:
+            return True
+        return src.kind == "branch" and kind in ("true", "false") and \
+            entails(src.ast.test, kind == "true", lambda lf, src=src: classify(lf, src),
+                    lambda a0: not (a0["H"] and a0["P"] and not a0["PN"] and a0["I"]), ["H", "P", "PN", "I"])
+    ok = all(not reach_avoiding(g, g.entry, a0, edge_ok, skip_kinds=("exc",)) for a0 in adds)
+    return ok, "hasattr(value, '_parent') and value._parent and value in value._parent"
 
 
 def run(prog, rep):
@@ -256,7 +267,7 @@ def run(prog, rep):
             lines = "->".join("L%d" % n.lineno for n, _ in p if n.lineno)[:120]
             if v == "maydouble":
                 if in_sl:
-                    ok, guard = smartlist_detach_guard_ok(f)
+                    ok, guard = smartlist_detach_guard_ok(an, f)
                     rep.check(ok, "DOM-1", "%s|%s" % (f.short, obj), "the detaching branch is skipped only for values without parent (`%s`)" % guard,
                               "%s; the detaching guard `%s` can be false for a value that has a parent" % (detail, guard), f.where,
                               witness="container.sections[i] = obj with obj attached elsewhere: obj is listed twice")
